@@ -5,7 +5,8 @@ package main
 //
 // case line:  <taskdefs>|<inv>;<inv>;...
 //   taskdef   name:deps:lit:cmd,cmd,...      cmd = <shape><marker>[.<status>]   (see cmdText)
-//   inv       <flags>:<request or ->:<edit or ->      flags subset of q j f s ; edit = E<content>
+//   inv       <flags>:<requests n.n or ->:<edit or ->      flags subset of q j f s v c ; edit = E<content>
+// the case line starts with the variables:  <n=hexvalue,...>|<taskdefs>|<invs>
 // impl/model line, per invocation:  exit=.. err=.. out=..
 
 import (
@@ -26,7 +27,12 @@ import (
 
 func init() { commands["report"] = reportCmd }
 
-var rpNames = []string{"a", "b", "c", "default", "e"}
+var rpNames = []string{"a", "b", "clean", "default", "e"}
+var rpVarNames = []string{"ALPHA", "BETA", "DELTA", "GAMMA"} // alphabetical: index order is listing order
+
+// values and docstrings that a listing must reproduce verbatim: printf verbs, percent signs, spaces, quotes-free punctuation
+var rpValues = []string{"plain", "80%", "+%Y-%m-%d", "%s and %d", "a b  c", "x=1", "100%%", "", "naïve", "%", "tail %"}
+var rpDocs = []string{"doc of %s", "100%% of %s", "%s ends with %%", "%%d items in %s", "doc of %s"}
 
 type rpCmd struct {
 	shape  byte // o: echo M | e: echo M >&2 | x: echo M; exit K | k: exit K | b: echo M; echo M >&2
@@ -34,7 +40,11 @@ type rpCmd struct {
 	status int
 }
 
+// every command first appends its marker to the trace file $T: which commands really ran is observed, not inferred
 func (c rpCmd) text() string {
+	return "echo " + c.marker + " >>\"$T\"; " + c.body()
+}
+func (c rpCmd) body() string {
 	switch c.shape {
 	case 'o':
 		return "echo " + c.marker
@@ -74,7 +84,7 @@ type rpTask struct {
 
 type rpInv struct {
 	flags string
-	req   int // -1: none
+	req   []int
 	edit  string
 }
 
@@ -93,7 +103,9 @@ func mentionsWord(s, w string) bool {
 			return false
 		}
 		a, b := i+j, i+j+len(w)
-		isW := func(c byte) bool { return c == '_' || c >= '0' && c <= '9' || c >= 'a' && c <= 'z' || c >= 'A' && c <= 'Z' }
+		isW := func(c byte) bool {
+			return c == '_' || c >= '0' && c <= '9' || c >= 'a' && c <= 'z' || c >= 'A' && c <= 'Z'
+		}
 		if (a == 0 || !isW(s[a-1])) && (b == len(s) || !isW(s[b])) {
 			return true
 		}
@@ -102,16 +114,17 @@ func mentionsWord(s, w string) bool {
 }
 
 type rpStats struct {
-	Cases       int            `json:"cases"`
-	Invocations int            `json:"invocations"`
-	Nontrivial  int            `json:"distinct_nontrivial"`
-	Flags       map[string]int `json:"flag_combinations"`
-	Exits       map[string]int `json:"exit_codes"`
-	Failing     int            `json:"invocations_with_failing_command"`
-	Statuses    map[string]int `json:"failing_status_buckets"`
-	SkippedSeen int            `json:"task_results_skipped"`
-	Samples     []string       `json:"samples"`
-	OracleFail  map[string]int `json:"oracle_failures"`
+	Cases          int            `json:"cases"`
+	Invocations    int            `json:"invocations"`
+	Nontrivial     int            `json:"distinct_nontrivial"`
+	Flags          map[string]int `json:"flag_combinations"`
+	Exits          map[string]int `json:"exit_codes"`
+	Failing        int            `json:"invocations_with_failing_command"`
+	Statuses       map[string]int `json:"failing_status_buckets"`
+	SkippedSeen    int            `json:"task_results_skipped"`
+	TracedCommands int            `json:"task_executions_seen_in_trace"`
+	Samples        []string       `json:"samples"`
+	OracleFail     map[string]int `json:"oracle_failures"`
 }
 
 type jsonCmd struct {
@@ -168,7 +181,7 @@ func reportCmd(args []string) error {
 	if *tier == "thorough" {
 		n = 40000
 	}
-	flagSets := []string{"", "q", "j", "f", "jf", "qf", "s", "qs", "", "j"}
+	flagSets := []string{"", "q", "j", "f", "jf", "qf", "s", "qs", "", "j", "c", "cq", "cj", "cf", "v", "vq", "vs", "cs", "f", "jf"}
 	marker := 0
 	for k := 0; k < n / *nshards; k++ {
 		// ---- generate a spokfile: a dependency chain over the first few names, maybe a task named default
@@ -181,7 +194,7 @@ func reportCmd(args []string) error {
 				t.deps = []int{perm[i-1]} // chain: unique run order
 			}
 			if r.Intn(2) == 0 {
-				t.doc = fmt.Sprintf("doc of %s", rpNames[nm])
+				t.doc = fmt.Sprintf(rpDocs[r.Intn(len(rpDocs))], rpNames[nm])
 			}
 			nc := r.Intn(5)
 			for j := 0; j < nc; j++ {
@@ -198,12 +211,23 @@ func reportCmd(args []string) error {
 			}
 			ts = append(ts, t)
 		}
+		type rpVar struct {
+			n   int
+			val string
+		}
+		var vars []rpVar
+		for _, vi := range r.Perm(len(rpVarNames))[:r.Intn(4)] {
+			vars = append(vars, rpVar{vi, rpValues[r.Intn(len(rpValues))]})
+		}
 		ni := 1 + r.Intn(3)
 		var invs []rpInv
 		for i := 0; i < ni; i++ {
-			inv := rpInv{flags: flagSets[r.Intn(len(flagSets))], req: -1}
+			inv := rpInv{flags: flagSets[r.Intn(len(flagSets))]}
 			if r.Intn(5) != 0 {
-				inv.req = perm[r.Intn(nt)]
+				inv.req = []int{perm[r.Intn(nt)]}
+				if r.Intn(4) == 0 {
+					inv.req = append(inv.req, perm[r.Intn(nt)]) // two requests, possibly the same task twice
+				}
 			}
 			if i > 0 && r.Intn(3) == 0 {
 				inv.edit = strconv.Itoa(r.Intn(3))
@@ -223,22 +247,29 @@ func reportCmd(args []string) error {
 			}
 			tenc = append(tenc, fmt.Sprintf("%d:%s:%s:%s", t.name, ints(t.deps), lit, strings.Join(cs, ",")))
 		}
+		var venc []string
+		for _, v := range vars {
+			venc = append(venc, fmt.Sprintf("%d=%s", v.n, hx(v.val)))
+		}
 		for _, v := range invs {
 			req, ed := "-", "-"
-			if v.req >= 0 {
-				req = strconv.Itoa(v.req)
+			if len(v.req) > 0 {
+				req = ints(v.req)
 			}
 			if v.edit != "" {
 				ed = "E" + v.edit
 			}
 			ienc = append(ienc, fmt.Sprintf("%s:%s:%s", v.flags, req, ed))
 		}
-		cs := strings.Join(tenc, ";") + "|" + strings.Join(ienc, ";")
+		cs := strings.Join(venc, ",") + "|" + strings.Join(tenc, ";") + "|" + strings.Join(ienc, ";")
 		// ---- materialise
 		home := filepath.Join(tmp, fmt.Sprintf("h%d", k))
 		proj := filepath.Join(home, "proj")
 		os.MkdirAll(proj, 0o755)
 		var src strings.Builder
+		for _, v := range vars {
+			fmt.Fprintf(&src, "%s := %q\n", rpVarNames[v.n], v.val)
+		}
 		for _, t := range ts {
 			if t.doc != "" {
 				fmt.Fprintf(&src, "# %s\n", t.doc)
@@ -268,6 +299,7 @@ func reportCmd(args []string) error {
 		}
 		// reference state: content of f0 at each task's last success
 		content := "0"
+		failedLast := map[string]string{} // task -> content of f0 when its last execution had a failing command
 		lastOK := map[int]string{}
 		var outs []string
 		for ii, v := range invs {
@@ -279,14 +311,16 @@ func reportCmd(args []string) error {
 			}
 			var argv []string
 			for _, f := range v.flags {
-				argv = append(argv, map[rune]string{'q': "--quiet", 'j': "--json", 'f': "--force", 's': "--show"}[f])
+				argv = append(argv, map[rune]string{'q': "--quiet", 'j': "--json", 'f': "--force", 's': "--show", 'v': "--vars", 'c': "--clean"}[f])
 			}
-			if v.req >= 0 {
-				argv = append(argv, rpNames[v.req])
+			for _, q := range v.req {
+				argv = append(argv, rpNames[q])
 			}
 			cmd := exec.Command(*spok, argv...)
 			cmd.Dir = proj
-			cmd.Env = []string{"HOME=" + home, "PATH=/usr/bin:/bin", "NO_COLOR=1"}
+			tracePath := filepath.Join(home, "trace.log")
+			os.Remove(tracePath)
+			cmd.Env = []string{"HOME=" + home, "PATH=/usr/bin:/bin", "NO_COLOR=1", "T=" + tracePath}
 			var so, se bytes.Buffer
 			cmd.Stdout, cmd.Stderr = &so, &se
 			runErr := cmd.Run()
@@ -301,15 +335,29 @@ func reportCmd(args []string) error {
 			stderr := ansiRe.ReplaceAllString(se.String(), "")
 			st.Exits[strconv.Itoa(exit)]++
 			quiet, js, force, show := strings.Contains(v.flags, "q"), strings.Contains(v.flags, "j"), strings.Contains(v.flags, "f"), strings.Contains(v.flags, "s")
-			// ---- reference semantics
+			// ---- reference semantics: --vars, then --clean, then --show, then the requests / the default action
+			varsL, clean := strings.Contains(v.flags, "v"), strings.Contains(v.flags, "c")
 			req := v.req
 			_, hasDefault := byName[3]
-			if req < 0 && hasDefault {
-				req = 3
+			_, hasClean := byName[2]
+			builtinClean := false
+			switch {
+			case varsL:
+				req = nil
+			case clean && hasClean:
+				req = []int{2} // the user's own clean task; task names on the command line play no part
+			case clean:
+				req, builtinClean = nil, true
+				lastOK = map[int]string{} // the cache directory is gone
+			case show:
+				req = nil
+			case len(req) == 0 && hasDefault:
+				req = []int{3}
 			}
-			listing := show || req < 0
+			many := len(req) > 1
+			listing := !varsL && !clean && (show || len(req) == 0)
 			var order []int
-			if !listing {
+			if len(req) > 0 {
 				var visit func(n int)
 				seen := map[int]bool{}
 				visit = func(n int) {
@@ -322,10 +370,13 @@ func reportCmd(args []string) error {
 					}
 					order = append(order, n)
 				}
-				visit(req)
+				for _, q := range req {
+					visit(q)
+				}
 			}
 			var want []jsonTask
 			wantFail := ""
+			var allFails []string
 			for _, n := range order {
 				t := byName[n]
 				jt := jsonTask{Task: rpNames[n], Results: nil}
@@ -338,6 +389,9 @@ func reportCmd(args []string) error {
 					for _, c := range t.cmds {
 						jt.Results = append(jt.Results, jsonCmd{c.text(), c.out(), c.errs(), c.status})
 						if c.status != 0 {
+							if okAll {
+								allFails = append(allFails, fmt.Sprintf("cmdfail:%s:%d", rpNames[n], c.status))
+							}
 							okAll = false
 							if wantFail == "" {
 								wantFail = fmt.Sprintf("cmdfail:%s:%d", rpNames[n], c.status)
@@ -357,17 +411,67 @@ func reportCmd(args []string) error {
 			// ---- project the implementation's behaviour
 			errS := "none"
 			if exit != 0 {
+				errS = "other"
 				if m := cmdFailRe.FindStringSubmatch(stderr); m != nil {
 					errS = fmt.Sprintf("cmdfail:%s:%s", m[2], m[3])
-				} else if wf := strings.Split(wantFail, ":"); len(wf) == 3 && mentionsWord(stderr, wf[1]) && mentionsWord(stderr, wf[2]) {
-					// the wording of the message is not part of the property: naming the task and the status is
-					errS = wantFail
 				} else {
-					errS = "other"
+					// the wording of the message is not part of the property: naming the task and the status is
+					for _, af := range allFails {
+						if wf := strings.Split(af, ":"); mentionsWord(stderr, wf[1]) && mentionsWord(stderr, wf[2]) {
+							errS = af
+							break
+						}
+					}
 				}
+			}
+			namedOK := errS == wantFail
+			if many {
+				// independent requested tasks may run in either order: any failing task may be the one named
+				namedOK = false
+				for _, af := range allFails {
+					namedOK = namedOK || errS == af
+				}
+				if namedOK {
+					errS = "cmdfail"
+				}
+			}
+			sortIf := func(l []jsonTask) []jsonTask {
+				if many {
+					l = append([]jsonTask(nil), l...)
+					sort.SliceStable(l, func(i, j int) bool { return l[i].Task < l[j].Task })
+				}
+				return l
 			}
 			outS := "?"
 			switch {
+			case varsL && (quiet || js), builtinClean:
+				outS = "nonempty"
+				if stdout == "" {
+					outS = "empty"
+				} else if builtinClean {
+					outS = "cleaned"
+				}
+			case varsL:
+				// one line per variable: starts with the name, ends with the value (column alignment is not part of the property)
+				var got []string
+				for _, l := range strings.Split(stdout, "\n") {
+					fl := strings.Fields(l)
+					if len(fl) == 0 {
+						continue
+					}
+					for vi, vn := range rpVarNames {
+						if fl[0] == vn {
+							val := "?"
+							for _, vv := range vars {
+								if vv.n == vi && strings.HasSuffix(l, vv.val) && strings.TrimSpace(strings.TrimPrefix(strings.TrimSpace(strings.TrimSuffix(l, vv.val)), vn)) == "" {
+									val = hx(vv.val)
+								}
+							}
+							got = append(got, vn+"="+val)
+						}
+					}
+				}
+				outS = "vars=" + strings.Join(got, ",")
 			case listing && !quiet && !js:
 				var names []string
 				lines := strings.Split(stdout, "\n")
@@ -390,7 +494,7 @@ func reportCmd(args []string) error {
 				if err := dec.Decode(&doc); err != nil {
 					outS = "json=UNDECODABLE"
 				} else {
-					outS = "json=" + canonTasks(doc)
+					outS = "json=" + canonTasks(sortIf(doc))
 					var extra json.RawMessage
 					if dec.Decode(&extra) == nil {
 						outS = "json=TRAILING-DATA"
@@ -423,21 +527,87 @@ func reportCmd(args []string) error {
 						}
 					}
 				}
+				if many {
+					sort.Strings(ms)
+				}
 				outS = "msgs=" + strings.Join(ms, ",")
+				if many && exit != 0 {
+					outS = "msgs=?" // which messages precede the first failure depends on the order of independent tasks
+				}
 			}
 			outs = append(outs, fmt.Sprintf("exit=%d err=%s out=%s", exit, errS, outS))
-			// ---- direct oracles
-			if wantFail != "" {
-				if exit == 0 {
-					fail("C09", fmt.Sprintf("invocation %d (%v): a command fails (%s) but spok exited 0", ii, argv, wantFail))
-				} else if errS != wantFail {
-					fail("C09", fmt.Sprintf("invocation %d (%v): expected the error to identify %s, got %q", ii, argv, wantFail, strings.TrimSpace(stderr)))
+			// ---- direct oracles.  C09 is judged on what really happened: the commands the trace file shows were executed
+			var ranFails []string // cmdfail:<task>:<status> of executed commands with a non-zero status, first per task, in execution order
+			ranTasks := map[string]bool{}
+			if tr, err := os.ReadFile(tracePath); err == nil {
+				seenT := map[string]bool{}
+				for _, mk := range strings.Fields(string(tr)) {
+					for _, t := range ts {
+						for _, c := range t.cmds {
+							if c.marker == mk {
+								ranTasks[rpNames[t.name]] = true
+								if c.status != 0 && !seenT[rpNames[t.name]] {
+									seenT[rpNames[t.name]] = true
+									ranFails = append(ranFails, fmt.Sprintf("cmdfail:%s:%d", rpNames[t.name], c.status))
+								}
+							}
+						}
+					}
 				}
-			} else if exit != 0 {
-				fail("C09", fmt.Sprintf("invocation %d (%v): no command fails but spok exited %d: %s", ii, argv, exit, strings.TrimSpace(stderr)))
 			}
-			if !listing && js && !quiet && wantFail == "" {
-				if w := "json=" + canonTasks(want); outS != w {
+			st.TracedCommands += len(ranTasks)
+			if len(ranFails) > 0 {
+				named := false
+				for _, rf := range ranFails {
+					wf := strings.Split(rf, ":")
+					named = named || errS == rf || (many && errS == "cmdfail") || (mentionsWord(stderr, wf[1]) && mentionsWord(stderr, wf[2]))
+				}
+				if exit == 0 {
+					fail("C09", fmt.Sprintf("invocation %d (%v): an executed command failed (%s) but spok exited 0", ii, argv, ranFails[0]))
+				} else if !named {
+					fail("C09", fmt.Sprintf("invocation %d (%v): an executed command failed (%s) but the error does not identify a failing task: %q", ii, argv, strings.Join(ranFails, " "), strings.TrimSpace(stderr)))
+				}
+				for _, rf := range ranFails {
+					failedLast[strings.Split(rf, ":")[1]] = content
+				}
+			}
+			for tn := range ranTasks {
+				isF := false
+				for _, rf := range ranFails {
+					isF = isF || strings.Split(rf, ":")[1] == tn
+				}
+				if !isF {
+					delete(failedLast, tn)
+				}
+			}
+			if builtinClean && exit == 0 {
+				failedLast = map[string]string{}
+			}
+			// a task whose last execution failed must not be reported as skipped (up to date) by a later run
+			if strings.HasPrefix(outS, "json=") || strings.HasPrefix(outS, "msgs=") {
+				for tn := range failedLast {
+					if strings.Contains(outS, tn+":s") && !ranTasks[tn] {
+						fail("C09", fmt.Sprintf("invocation %d (%v): task %s is reported skipped although its last execution had a failing command: %s", ii, argv, tn, outS))
+					}
+				}
+			}
+			_ = namedOK
+			if force && exit == 0 && (strings.Contains(outS, ":s:") || strings.Contains(outS, ":s,") || strings.HasSuffix(outS, ":s")) && (strings.HasPrefix(outS, "json=") || strings.HasPrefix(outS, "msgs=")) {
+				fail("C14", fmt.Sprintf("invocation %d (%v): a task is reported skipped under --force: %s", ii, argv, outS))
+			}
+			if varsL && !quiet && !js {
+				var ws []string
+				sorted := append([]rpVar(nil), vars...)
+				sort.Slice(sorted, func(i, j int) bool { return rpVarNames[sorted[i].n] < rpVarNames[sorted[j].n] })
+				for _, vv := range sorted {
+					ws = append(ws, rpVarNames[vv.n]+"="+hx(vv.val))
+				}
+				if w := "vars=" + strings.Join(ws, ","); outS != w || exit != 0 {
+					fail("C20", fmt.Sprintf("invocation %d (%v): --vars printed %s (exit %d), the variables are %s: %q", ii, argv, outS, exit, w, stdout))
+				}
+			}
+			if len(order) > 0 && js && !quiet && wantFail == "" {
+				if w := "json=" + canonTasks(sortIf(want)); outS != w {
 					fail("C20", fmt.Sprintf("invocation %d (%v): --json printed %s, the run was %s", ii, argv, outS, w))
 				}
 			}
@@ -459,7 +629,7 @@ func reportCmd(args []string) error {
 					}
 				}
 			}
-			if !listing && !quiet && !js && wantFail == "" {
+			if len(order) > 0 && !quiet && !js && wantFail == "" {
 				var ms []string
 				for _, jt := range want {
 					f := "c"
@@ -467,6 +637,9 @@ func reportCmd(args []string) error {
 						f = "s"
 					}
 					ms = append(ms, jt.Task+":"+f)
+				}
+				if many {
+					sort.Strings(ms)
 				}
 				if w := "msgs=" + strings.Join(ms, ","); outS != w {
 					fail("C20", fmt.Sprintf("invocation %d (%v): reported %s, the run was %s", ii, argv, outS, w))
